@@ -1,13 +1,20 @@
 #!/usr/bin/env python3
 """irsym prototype: path-forking symbolic interpreter for the LLVM-14 IR subset parsed by ir2c.
 Re-execution based forking: every path is run from the entry following a decision prefix."""
-import sys, struct, time, bisect, json
+import sys, struct, time, bisect, json, os
 import z3
-from ir2c import (parse_module, lex, P, parse_type, parse_const, parse_type_base, skip_param_attrs, uq,
+from .ir2c import (parse_module, lex, P, parse_type, parse_const, parse_type_base, skip_param_attrs, uq,
                   Unsupported, Void, Int, Flt, Ptr, Arr, Named, Lit, Fn, PARAM_ATTRS)
 
-class Violation(Exception): pass
+class Violation(Exception):
+    def __init__(s, msg, kind='assert', model=None):
+        Exception.__init__(s, msg); s.kind = kind; s.model = model
 class PathEnd(Exception): pass
+class Partial:
+    """integer value with some uninitialised bytes (kept bytewise so that copying structs with padding is exact)"""
+    __slots__ = ('bs',)
+    def __init__(s, bs): s.bs = bs
+    def __repr__(s): return 'Partial(%r)' % (s.bs,)
 class Undef:
     def __repr__(s): return 'UNDEF'
 UNDEF = Undef()
@@ -21,9 +28,12 @@ class Layout:
         while isinstance(t, Named): t = s.m.structs[t.name]
         return t
     def sa(s, t):
+        try: return t._sa
+        except AttributeError: pass
         k = repr(t)
         r = s.cache.get(k)
         if r is None: r = s.cache[k] = s._sa(t)
+        t._sa = r
         return r
     def _sa(s, t):
         t = s.res(t)
@@ -47,15 +57,19 @@ class Layout:
 
 # ------------------------------------------------------------------ memory
 class Obj:
-    __slots__ = ('base', 'size', 'alive', 'kind', 'cells', 'name')
+    __slots__ = ('base', 'size', 'alive', 'kind', 'cells', 'name', 'default')
     def __init__(s, base, size, kind, name=''):
         s.base = base; s.size = size; s.alive = True; s.kind = kind; s.cells = {}; s.name = name
+        s.default = 0 if kind == 'global' else UNDEF      # bytes never written: zero for globals, uninitialised otherwise
 
 class Mem:
     def __init__(s):
         s.bases = []; s.objs = []; s.next = 0x100000; s.nalloc = 0
-    def alloc(s, size, kind, name=''):
-        base = s.next; s.next = (base + max(size, 1) + 64 + 63) // 64 * 64
+    def alloc(s, size, kind, name='', align=16):
+        base = (s.next + 63) // 64 * 64
+        if kind == 'heap': base += 16          # operator new guarantees 16, not more
+        elif align < 64: base += (align if align >= 1 else 1) * (1 if (64 // max(align, 1)) > 1 else 0)   # exactly the requested alignment
+        s.next = base + max(size, 1) + 64
         o = Obj(base, size, kind, name); s.bases.append(base); s.objs.append(o); s.nalloc += 1
         return o
     def find(s, addr, n, what):
@@ -102,7 +116,7 @@ class Mem:
                         if j + e2[0] > k:
                             bb = tobytes(e2[1], e2[0]); bs.append(bb[k - j]); found = True
                         break
-                if not found: bs.append(UNDEF)
+                if not found: bs.append(o.default)
                 k += 1
             else:
                 bb = tobytes(e[1], e[0])
@@ -116,22 +130,33 @@ def tobytes(v, n):
         raw = struct.pack('<f', v) if n == 4 else struct.pack('<d', v)
         return list(raw)
     if v is UNDEF: return [UNDEF] * n
+    if isinstance(v, Partial): return list(v.bs)
+    if z3.is_bool(v): return [z3.If(v, z3.BitVecVal(1, 8), z3.BitVecVal(0, 8))] + [0] * (n - 1)
     if isinstance(v, z3.BitVecRef): return [z3.Extract(8 * i + 7, 8 * i, v) for i in range(n)]
     raise Unsupported('tobytes %r' % (v,))
+
+def tobytes_any(v, n):
+    return tobytes(v, n)
+
 
 def frombytes(bs, n):
     if all(isinstance(b, int) for b in bs):
         return sum(b << (8 * i) for i, b in enumerate(bs))
-    if any(b is UNDEF for b in bs): return UNDEF
+    if all(b is UNDEF for b in bs): return UNDEF
+    if any(b is UNDEF for b in bs): return Partial(list(bs))
     parts = [b if isinstance(b, z3.BitVecRef) else z3.BitVecVal(b, 8) for b in bs]
     return z3.simplify(z3.Concat(*reversed(parts))) if len(parts) > 1 else parts[0]
 
 # ------------------------------------------------------------------ interpreter
 class Interp:
-    def __init__(s, m):
+    def __init__(s, m, concrete_syms=None, budget=5_000_000):
         s.m = m; s.L = Layout(m); s.dec = {}
-        s.stats = dict(instr=0, solver_calls=0, solver_s=0.0)
-        s.solver = z3.Solver()
+        s.stats = dict(instr=0, solver_calls=0, solver_s=0.0, proved=0)
+        s.solver = z3.Solver(); s.budget = budget
+        s.concrete_syms = concrete_syms      # list of ints: irsym_symbolic_u64 returns these (concrete replay / differential mode)
+        s.reach = {}                         # assertion id -> times reached
+        s.hooks = {}                         # external name -> python callable(interp, args) (mock runtimes)
+        s.trace_mem = None                   # when a list: (kind, addr, n) of every load/store (C03 footprints, C12 write sets)
         s.fnaddr = {}; s.addrfn = {}
         for i, n in enumerate(list(m.funcs) + list(m.decls)):
             s.fnaddr[n] = 0x1000 + 16 * i; s.addrfn[0x1000 + 16 * i] = n
@@ -140,18 +165,28 @@ class Interp:
     def start_path(s, prefix):
         s.mem = Mem(); s.prefix = prefix; s.dpos = 0; s.decisions = []; s.pending = []
         s.pc = []; s.solver.reset(); s.symcount = 0; s.gaddr = {}; s.heap_live = {}
-        s.path_instr = 0
+        s.path_instr = 0; s.choices = []; s.syms = []; s.obs_hash = 0; s.nobs = 0; s.known = {}; s.notes = []
+        s.path_checks = 0; s.logs = {}
+        first = not hasattr(s, 'gimage')
+        if first: s.gimage = {}
         for n, (t, init, const) in s.m.globals.items():
             if init is None: continue
-            o = s.mem.alloc(s.L.size(t), 'global', n); s.gaddr[n] = o.base
+            o = s.mem.alloc(s.L.size(t), 'global', n, 64); s.gaddr[n] = o.base
         for n, (t, init, const) in s.m.globals.items():
             if init is None: continue
-            s.init_global(s.gaddr[n], t, init)
+            o = s.mem.objs[bisect.bisect_right(s.mem.bases, s.gaddr[n]) - 1]
+            if first:
+                s.init_global(s.gaddr[n], t, init)
+                s.gimage[n] = (o.cells, const)
+                if not const: o.cells = dict(o.cells)
+            else:
+                img, cst = s.gimage[n]
+                o.cells = img if cst else dict(img)      # constant globals share their (never written) image
 
     def init_global(s, addr, t, v):
         t = s.L.res(t)
         if v.kind in ('zero', 'undef'):
-            s.zero(addr, t); return
+            return            # global objects read as zero where never written (Obj.default)
         if v.kind == 'agg':
             if isinstance(t, Arr):
                 es = s.L.size(t.e)
@@ -201,12 +236,25 @@ class Interp:
         """c: python int/bool or z3 BoolRef -> bool taken"""
         if isinstance(c, int): return bool(c)
         if c is UNDEF: raise Violation('branch on uninitialised value')
+        if isinstance(c, Partial): raise Violation('branch on partially uninitialised value', 'uninit')
+        if not z3.is_bool(c): c = (c != 0)
         c = z3.simplify(c)
         if z3.is_true(c): return True
         if z3.is_false(c): return False
-        d = s.decide(2, lambda i: s.check(c if i == 0 else z3.Not(c)))
+        k = c.get_id()
+        hit = s.known.get(k)
+        if hit is not None: return hit[0]
+        if s.dpos < len(s.prefix):
+            d = s.prefix[s.dpos]; s.dpos += 1; s.decisions.append(d)
+        else:
+            f0 = s.check(c)
+            f1 = True if not f0 else s.check(z3.Not(c))
+            if not f0 and not f1: raise PathEnd('infeasible')
+            d = 0 if f0 else 1
+            if f0 and f1: s.pending.append(s.decisions + [1])
+            s.dpos += 1; s.decisions.append(d)
         cc = c if d == 0 else z3.Not(c)
-        s.pc.append(cc); s.solver.add(cc)
+        s.pc.append(cc); s.solver.add(cc); s.known[k] = (d == 0, c)
         return d == 0
 
     # ---- values
@@ -265,8 +313,13 @@ class Interp:
 
     def cast(s, op, x, st, dt):
         if x is UNDEF: return UNDEF
+        if isinstance(x, Partial):
+            if op == 'trunc' and isinstance(dt, Int) and dt.n % 8 == 0: return frombytes(x.bs[:dt.n // 8], dt.n // 8)
+            if op in ('bitcast', 'inttoptr', 'ptrtoint') : return x
+            return UNDEF
         if op in ('bitcast',):
             if isinstance(st, Ptr) and isinstance(dt, Ptr): return x
+            if isinstance(x, z3.ExprRef): return x          # opaque symbolic bit pattern (never computed on)
             if isinstance(st, Int) and isinstance(dt, Flt):
                 return struct.unpack('<f' if dt.k == 'float' else '<d', x.to_bytes(4 if dt.k == 'float' else 8, 'little'))[0]
             if isinstance(st, Flt) and isinstance(dt, Int):
@@ -300,7 +353,7 @@ class Interp:
         raise Unsupported('cast ' + op)
 
     def binop(s, op, a, b, t):
-        if a is UNDEF or b is UNDEF: return UNDEF
+        if a is UNDEF or b is UNDEF or isinstance(a, Partial) or isinstance(b, Partial): return UNDEF
         if isinstance(t, Flt):
             if not (isinstance(a, float) and isinstance(b, float)): raise Unsupported('symbolic fp arithmetic')
             r = {'fadd': lambda: a + b, 'fsub': lambda: a - b, 'fmul': lambda: a * b,
@@ -343,7 +396,7 @@ class Interp:
         return r
 
     def icmp(s, pred, a, b, t):
-        if a is UNDEF or b is UNDEF: return UNDEF
+        if a is UNDEF or b is UNDEF or isinstance(a, Partial) or isinstance(b, Partial): return UNDEF
         n = t.n if isinstance(t, Int) else 64
         if isinstance(a, int) and isinstance(b, int):
             if pred[0] == 's':
@@ -400,15 +453,19 @@ class Interp:
                 if not p.accept(','): break
             return ('phi', dst, inc)
         if op == 'alloca':
-            p.accept('inalloca'); t = parse_type(p); cnt = None
+            p.accept('inalloca'); t = parse_type(p); cnt = None; al = 1
             while p.accept(','):
-                if p.accept('align'): p.next()
+                if p.accept('align'): al = int(p.next()[1])
                 else: cnt = s.typed(p)
-            return ('alloca', dst, t, cnt)
+            return ('alloca', dst, t, cnt, al)
         if op == 'load':
-            p.accept('volatile'); t = parse_type(p); p.expect(','); a = s.typed(p); return ('load', dst, t, a)
+            p.accept('volatile'); t = parse_type(p); p.expect(','); a = s.typed(p); al = 1
+            if p.accept(',') and p.accept('align'): al = int(p.next()[1])
+            return ('load', dst, t, a, al)
         if op == 'store':
-            p.accept('volatile'); v = s.typed(p); p.expect(','); a = s.typed(p); return ('store', v, a)
+            p.accept('volatile'); v = s.typed(p); p.expect(','); a = s.typed(p); al = 1
+            if p.accept(',') and p.accept('align'): al = int(p.next()[1])
+            return ('store', v, a, al)
         if op == 'getelementptr':
             p.accept('inbounds'); bt = parse_type(p); p.expect(','); base = s.typed(p); idx = []
             while p.accept(','): idx.append(s.typed(p))
@@ -494,14 +551,18 @@ class Interp:
                         vals.append((ins[i][1], s.val(env, ins[i][2][prev]))); i += 1
                     for d, v in vals: env[d] = v
                 s.path_instr += len(ins)
-                if s.path_instr > s.budget: raise Violation('instruction budget exhausted (non-termination?) in ' + name)
+                if s.path_instr > s.budget: raise Violation('instruction budget %d exhausted (non-termination?) in %s' % (s.budget, name[:80]), 'budget')
                 for it in ins[i:]:
                     op = it[0]
                     if op == 'bin':
                         env[it[1]] = s.binop(it[2], s.val(env, it[4]), s.val(env, it[5]), it[3])
                     elif op == 'load':
                         a = s.val(env, it[3]); t = s.L.res(it[2])
-                        if not isinstance(a, int): raise Unsupported('load from symbolic/undef address')
+                        if not isinstance(a, int):
+                            if a is UNDEF or isinstance(a, Partial): raise Violation('load through uninitialised pointer in ' + name[:60], 'uninit')
+                            raise Unsupported('load from symbolic address')
+                        if a % it[4]: raise Violation('misaligned load (align %d) at offset of %s in %s' % (it[4], s.describe(a), name[:60]), 'align')
+                        if s.trace_mem is not None: s.trace_mem.append(('r', a, s.L.size(t)))
                         if isinstance(t, (Arr, Lit)): env[it[1]] = s.load_agg(a, t)
                         else:
                             v = mem.load(a, s.L.size(t))
@@ -511,7 +572,11 @@ class Interp:
                             env[it[1]] = v
                     elif op == 'store':
                         a = s.val(env, it[2]); t = s.L.res(it[1].ty); v = s.val(env, it[1])
-                        if not isinstance(a, int): raise Unsupported('store to symbolic/undef address')
+                        if not isinstance(a, int):
+                            if a is UNDEF or isinstance(a, Partial): raise Violation('store through uninitialised pointer in ' + name[:60], 'uninit')
+                            raise Unsupported('store to symbolic address')
+                        if a % it[3]: raise Violation('misaligned store (align %d) at %s in %s' % (it[3], s.describe(a), name[:60]), 'align')
+                        if s.trace_mem is not None: s.trace_mem.append(('w', a, s.L.size(t)))
                         if isinstance(t, (Arr, Lit)): s.store_agg(a, t, v)
                         else:
                             if z3.is_bool(v) if isinstance(v, z3.ExprRef) else False: v = z3.If(v, z3.BitVecVal(1, 8), z3.BitVecVal(0, 8))
@@ -539,7 +604,7 @@ class Interp:
                     elif op == 'select':
                         c = s.val(env, it[2]); a = s.val(env, it[3]); b = s.val(env, it[4])
                         if isinstance(c, int): env[it[1]] = a if c else b
-                        elif c is UNDEF: env[it[1]] = UNDEF
+                        elif c is UNDEF or isinstance(c, Partial): env[it[1]] = UNDEF
                         else:
                             if isinstance(a, float) or isinstance(b, float) or isinstance(a, list):
                                 env[it[1]] = a if s.branch(c) else b
@@ -553,7 +618,8 @@ class Interp:
                                 else: env[it[1]] = z3.If(c, A, B)
                     elif op == 'alloca':
                         n = 1 if it[3] is None else s.val(env, it[3])
-                        o = mem.alloc(s.L.size(it[2]) * n, 'stack', name[:30] + '%' + it[1]); frame_objs.append(o)
+                        if not isinstance(n, int): raise Unsupported('symbolic alloca size')
+                        o = mem.alloc(s.L.size(it[2]) * n, 'stack', name[:30] + '%' + it[1], it[4]); frame_objs.append(o)
                         env[it[1]] = o.base
                     elif op == 'ret':
                         return None if it[1] is None else s.val(env, it[1])
@@ -673,7 +739,30 @@ class Interp:
                     if f == 'umin': return min(x, a[1])
                     if f == 'ctlz': return n - x.bit_length()
                     if f == 'cttz': return n if x == 0 else (x & -x).bit_length() - 1
-            if name.startswith(('llvm.trap', 'llvm.ubsantrap')): raise Violation('trap: ' + name)
+            if name.startswith(('llvm.trap', 'llvm.ubsantrap')):
+                from .ir2c import UBSAN_KINDS
+                kind = UBSAN_KINDS.get(a[0], str(a[0])) if name.startswith('llvm.ubsantrap') and a and isinstance(a[0], int) else 'llvm.trap'
+                raise Violation('undefined behaviour trap: %s' % kind, 'ub')
+            for f in ('fmuladd', 'fma', 'sqrt', 'fabs', 'floor', 'ceil', 'trunc', 'rint', 'nearbyint', 'round', 'copysign', 'minnum', 'maxnum'):
+                if name.startswith('llvm.%s.f' % f):
+                    if not all(isinstance(x, float) for x in a if x is not None): raise Unsupported('symbolic fp intrinsic ' + name)
+                    import math
+                    is32 = name.endswith('f32')
+                    if f in ('fmuladd', 'fma'):
+                        r = (f32(a[0] * a[1]) if is32 else a[0] * a[1]) + a[2]      # unfused, as the x86-64 builds without FMA evaluate it
+                    elif f == 'sqrt':
+                        if a[0] < 0: r = float('nan')
+                        else: r = math.sqrt(a[0])
+                    elif f == 'fabs': r = abs(a[0])
+                    elif f == 'floor': r = float(math.floor(a[0])) if a[0] == a[0] and abs(a[0]) != float('inf') else a[0]
+                    elif f == 'ceil': r = float(math.ceil(a[0])) if a[0] == a[0] and abs(a[0]) != float('inf') else a[0]
+                    elif f == 'trunc': r = float(int(a[0])) if a[0] == a[0] and abs(a[0]) != float('inf') else a[0]
+                    elif f in ('rint', 'nearbyint'): r = float(round(a[0])) if a[0] == a[0] and abs(a[0]) != float('inf') else a[0]
+                    elif f == 'round': r = math.copysign(math.floor(abs(a[0]) + 0.5), a[0]) if a[0] == a[0] and abs(a[0]) != float('inf') else a[0]
+                    elif f == 'copysign': r = math.copysign(a[0], a[1])
+                    elif f == 'minnum': r = min(a[0], a[1])
+                    else: r = max(a[0], a[1])
+                    return f32(r) if is32 else r
             raise Unsupported('intrinsic ' + name)
         if name in ('_Znwm', '_Znam'):
             if not isinstance(a[0], int): raise Unsupported('symbolic allocation size')
@@ -683,50 +772,238 @@ class Interp:
             o = s.heap_live.pop(a[0], None)
             if o is None: raise Violation('delete of non-heap or already freed pointer')
             o.alive = False; return None
-        if name == '__assert_fail': raise Violation('library assert() failed')
+        if name == '__assert_fail': raise Violation('library assert() failed: %s (%s:%s)' % (s.cstring(a[0]), s.cstring(a[1]).split('/')[-1], a[2]), 'libassert')
+        if name in ('sqrt', 'sqrtf'):
+            if not isinstance(a[0], float): raise Unsupported('symbolic sqrt')
+            import math
+            r = math.sqrt(a[0]) if a[0] >= 0 else float('nan'); return f32(r) if name == 'sqrtf' else r
+        if name == 'abort': raise Violation('abort() called', 'libassert')
         if name.startswith('_ZSt') and 'throw' in name: raise Violation('C++ exception: ' + name)
         if name == 'getenv': return 0
-        if name == 'irsym_choose': return s.decide(a[0], None)
+        if name in ('bcmp', 'memcmp'):
+            if not all(isinstance(x, int) for x in a[:3]): raise Unsupported('symbolic ' + name)
+            n = a[2]
+            if n == 0: return 0
+            x = tobytes_any(s.mem.load(a[0], n), n) if n <= 16 else [s.mem.load(a[0] + i, 1) for i in range(n)]
+            y = tobytes_any(s.mem.load(a[1], n), n) if n <= 16 else [s.mem.load(a[1] + i, 1) for i in range(n)]
+            if any(b is UNDEF for b in x + y): raise Violation(name + ' reads uninitialised bytes', 'uninit')
+            if all(isinstance(b, int) for b in x + y):
+                for p, q in zip(x, y):
+                    if p != q: return (1 if p > q else 0xFFFFFFFF)
+                return 0
+            if name == 'memcmp': raise Unsupported('memcmp on symbolic bytes')
+            eq = z3.And([(p if not isinstance(p, int) else z3.BitVecVal(p, 8)) == (q if not isinstance(q, int) else z3.BitVecVal(q, 8)) for p, q in zip(x, y)])
+            return z3.If(eq, z3.BitVecVal(0, 32), z3.BitVecVal(1, 32))
+        h = s.hooks.get(name)
+        if h is not None: return h(s, a)
+        if name == 'irsym_choose':
+            n = a[0]
+            if not isinstance(n, int) or n <= 0: raise Unsupported('irsym_choose with symbolic/non-positive count')
+            d = s.decide(n, None); s.choices.append(d); return d
         if name == 'irsym_symbolic_u64':
-            s.symcount += 1; v = z3.BitVec('sym%d' % s.symcount, 64); return v
+            k = len(s.syms)
+            if s.concrete_syms is not None:
+                v = s.concrete_syms[k] if k < len(s.concrete_syms) else 0
+            else:
+                v = z3.BitVec('sym%d' % k, 64)
+            s.syms.append(v); return v
         if name == 'irsym_assume':
-            if not s.branch(a[0] if isinstance(a[0], int) or z3.is_bool(a[0]) else a[0] != 0): raise PathEnd('assume false')
-            return None
-        if name == 'irsym_assert':
             c = a[0]
             if isinstance(c, int):
-                if not c: raise Violation('harness assertion %d failed (concrete)' % a[1])
+                if not c: raise PathEnd('assume false')
                 return None
-            if c is UNDEF: raise Violation('assertion on uninitialised value')
-            c = c if z3.is_bool(c) else c != 0
-            if s.check(z3.Not(c)):
-                s.solver.push(); s.solver.add(z3.Not(c)); s.solver.check(); mdl = s.solver.model(); s.solver.pop()
-                raise Violation('harness assertion %d failed; model %s' % (a[1], mdl))
-            s.stats['proved'] = s.stats.get('proved', 0) + 1
+            if not s.branch(c): raise PathEnd('assume false')
             return None
+        if name == 'irsym_assert':
+            c = a[0]; aid = a[1]
+            s.reach[aid] = s.reach.get(aid, 0) + 1
+            if isinstance(c, int):
+                if not c: raise Violation('harness assertion %d failed' % aid, 'assert')
+                return None
+            if c is UNDEF or isinstance(c, Partial): raise Violation('harness assertion %d evaluated on uninitialised data' % aid, 'uninit')
+            c = c if z3.is_bool(c) else c != 0
+            c = z3.simplify(c)
+            if z3.is_true(c):
+                s.stats['proved'] += 1; return None
+            t0 = time.time(); s.solver.push(); s.solver.add(z3.Not(c)); r = s.solver.check()
+            s.stats['solver_calls'] += 1
+            if r == z3.sat:
+                mdl = s.solver.model(); model = [mdl.eval(v, model_completion=True).as_long() if not isinstance(v, int) else v for v in s.syms]
+                s.solver.pop(); s.stats['solver_s'] += time.time() - t0
+                raise Violation('harness assertion %d fails for some values of the symbolic inputs' % aid, 'assert', model)
+            s.solver.pop(); s.stats['solver_s'] += time.time() - t0
+            if r == z3.unknown: raise Unsupported('solver answered unknown on assertion %d' % aid)
+            s.stats['proved'] += 1
+            return None
+        if name == 'irsym_observe':
+            v = a[0]
+            if isinstance(v, int):
+                s.obs_hash = (((s.obs_hash ^ v) * 0x100000001b3) + 0x9e3779b97f4a7c15) & (2**64 - 1); s.nobs += 1
+            return None
+        if name == 'irsym_note':
+            if len(s.notes) < 64: s.notes.append((a[0], a[1] if isinstance(a[1], int) else str(a[1])[:60]))
+            return None
+        if name == 'irsym_log':
+            if not all(isinstance(x, int) for x in a[:6]): raise Unsupported('irsym_log with symbolic fields')
+            s.logs.setdefault(a[0], []).append(tuple(a[1:6])); return None
+        if name == 'irsym_logs_equal':
+            return 1 if sorted(s.logs.get(a[0], [])) == sorted(s.logs.get(a[1], [])) else 0
+        if name == 'irsym_log_count':
+            return sum(1 for e in s.logs.get(a[0], []) if e[0] == a[1])
+        if name == 'irsym_log_clear':
+            s.logs[a[0]] = []; return None
+        if name == 'irsym_is_symbolic_run': return 0 if s.concrete_syms is not None else 1
         raise Unsupported('external ' + name)
 
-def explore(m, entry, args_fn, budget=5_000_000, max_paths=10**9, verbose=True):
-    it = Interp(m); it.budget = budget
-    work = [[]]; npaths = 0; nviol = 0; t0 = time.time(); total_instr = 0
-    while work and npaths < max_paths:
-        prefix = work.pop()
-        it.start_path(prefix)
+    def cstring(s, addr, maxlen=200):
+        out = []
         try:
-            it.call(entry, args_fn(it))
-            if it.heap_live: raise Violation('leak: %d heap blocks alive at exit' % len(it.heap_live))
-            status = 'ok'
-        except PathEnd as e: status = 'end:' + str(e)
-        except Violation as e:
-            status = 'VIOLATION: ' + str(e)[:300]; nviol += 1
-            if verbose: print('  path', it.decisions, status)
-        work.extend(it.pending); npaths += 1; total_instr += it.path_instr
-    dt = time.time() - t0
-    print('paths=%d violations=%d instr=%d wall=%.1fs (%.2f us/instr, %.3f s/path) solver_calls=%d solver_s=%.1f proved=%d pending=%d' % (
-        npaths, nviol, total_instr, dt, 1e6 * dt / max(1, total_instr), dt / max(1, npaths), it.stats['solver_calls'], it.stats['solver_s'], it.stats.get('proved', 0), len(work)))
-    return nviol
+            while len(out) < maxlen:
+                b = s.mem.load(addr + len(out), 1)
+                if not isinstance(b, int) or b == 0: break
+                out.append(chr(b))
+        except Violation:
+            pass
+        return ''.join(out)
+
+    def describe(s, addr):
+        i = bisect.bisect_right(s.mem.bases, addr) - 1
+        if i < 0: return '0x%x' % addr
+        o = s.mem.objs[i]
+        return '%s:%s+%d' % (o.kind, o.name, addr - o.base)
+
+
+# ---------------------------------------------------------------------------------- exploration
+_G = {}
+
+
+def _worker_init(ll_path, opts):
+    if _G.get('ll_path') != ll_path:      # normally inherited from the parent through fork
+        _G['m'] = parse_module(open(ll_path).read()); _G['ll_path'] = ll_path
+    _G['opts'] = opts
+    it = Interp(_G['m'], budget=opts.get('budget', 5_000_000))
+    if opts.get('hooks'):
+        import importlib
+        mod = importlib.import_module(opts['hooks'])
+        mod.install(it, opts)
+    _G['it'] = it
+
+
+def run_one(it, entry, args, prefix):
+    """run one path; returns (status, info dict)"""
+    it.start_path(prefix)
+    hk = getattr(it, 'path_start_hook', None)
+    if hk: hk(it)
+    info = {}
+    try:
+        it.call(entry, [(a & (2**64 - 1)) if isinstance(a, int) else a for a in args])
+        hk = getattr(it, 'path_end_hook', None)
+        if hk: hk(it)
+        if it.heap_live:
+            o = next(iter(it.heap_live.values()))
+            raise Violation('leak: %d heap block(s) still allocated when the harness returns (first: %s, %d bytes)' % (len(it.heap_live), o.name, o.size), 'leak')
+        status = 'ok'
+    except PathEnd as e:
+        status = 'end'
+    except Violation as e:
+        status = 'violation'; info = dict(kind=e.kind, msg=str(e)[:600], model=e.model)
+    except Unsupported as e:
+        status = 'unsupported'; info = dict(msg=str(e)[:300])
+    except RecursionError:
+        status = 'unsupported'; info = dict(msg='python recursion limit')
+    return status, info
+
+
+def _subtree(task):
+    entry, args, prefix, batch, deadline = task
+    it = _G['it']
+    work = [prefix]; res = dict(paths=0, ok=0, ended=0, instr=0, violations=[], unsupported=[], samples=[], reach={}, solver_calls=0, solver_s=0.0, proved=0)
+    sc0, ss0, pr0 = it.stats['solver_calls'], it.stats['solver_s'], it.stats['proved']
+    it.reach = {}
+    while work and res['paths'] < batch and time.time() < deadline:
+        p = work.pop()
+        st, info = run_one(it, entry, args, p)
+        work.extend(it.pending); res['paths'] += 1; res['instr'] += it.path_instr
+        if st == 'ok':
+            res['ok'] += 1
+            if len(res['samples']) < 2: res['samples'].append(dict(choices=list(it.choices), decisions=len(it.decisions), instr=it.path_instr, notes=it.notes[:12]))
+        elif st == 'end': res['ended'] += 1
+        elif st == 'violation':
+            if len(res['violations']) < 20:
+                info.update(choices=list(it.choices), decisions=list(it.decisions), nsyms=len(it.syms)); res['violations'].append(info)
+            else: res['violations_more'] = res.get('violations_more', 0) + 1
+        else:
+            if len(res['unsupported']) < 5: res['unsupported'].append(info['msg'])
+    res['left'] = work
+    res['reach'] = dict(it.reach)
+    res['solver_calls'] = it.stats['solver_calls'] - sc0; res['solver_s'] = it.stats['solver_s'] - ss0; res['proved'] = it.stats['proved'] - pr0
+    return res
+
+
+def explore(ll_path, entry, args, jobs=None, budget=5_000_000, time_limit=600, batch=24, hooks=None, hook_opts=None, max_paths=10**9, stop_on_violation=False):
+    """explore all paths of entry(args) in the IR file; returns aggregate dict"""
+    import multiprocessing as mp
+    jobs = jobs or (os.cpu_count() or 4)
+    opts = dict(budget=budget, hooks=hooks); opts.update(hook_opts or {})
+    if _G.get('ll_path') != ll_path:
+        _G['m'] = parse_module(open(ll_path).read()); _G['ll_path'] = ll_path      # parse once; Unsupported propagates to the caller
+    check_globals(_G['m'])
+    t0 = time.time(); deadline = t0 + time_limit
+    agg = dict(paths=0, ok=0, ended=0, instr=0, violations=[], unsupported=[], samples=[], reach={}, solver_calls=0, solver_s=0.0, proved=0,
+               exhaustive=True, violations_total=0)
+    ctxm = mp.get_context('fork')
+    with ctxm.Pool(jobs, initializer=_worker_init, initargs=(ll_path, opts)) as pool:
+        # seed: explore sequentially a little to get a frontier, then fan out
+        pendingq = [[]]; inflight = []
+        while pendingq or inflight:
+            while pendingq and len(inflight) < jobs * 2 and time.time() < deadline and agg['paths'] < max_paths:
+                p = pendingq.pop()
+                b = 1 if agg['paths'] + len(inflight) < jobs * 2 else batch
+                inflight.append(pool.apply_async(_subtree, ((entry, args, p, b, deadline),)))
+            if not inflight: break
+            done = [f for f in inflight if f.ready()]
+            if not done:
+                inflight[0].wait(0.05); continue
+            for f in done:
+                inflight.remove(f)
+                r = f.get()
+                for k in ('paths', 'ok', 'ended', 'instr', 'solver_calls', 'solver_s', 'proved'): agg[k] += r[k]
+                agg['violations_total'] += len(r['violations']) + r.get('violations_more', 0)
+                for v in r['violations']:
+                    if len(agg['violations']) < 50: agg['violations'].append(v)
+                for u in r['unsupported']:
+                    if len(agg['unsupported']) < 10: agg['unsupported'].append(u)
+                for sm in r['samples']:
+                    if len(agg['samples']) < 4: agg['samples'].append(sm)
+                for k, v in r['reach'].items(): agg['reach'][k] = agg['reach'].get(k, 0) + v
+                pendingq.extend(r['left'])
+            if stop_on_violation and agg['violations']:
+                break
+            if (time.time() >= deadline or agg['paths'] >= max_paths) and not inflight: break
+        if pendingq or inflight: agg['exhaustive'] = False
+        agg['pending_left'] = len(pendingq)
+        pool.terminate()
+    agg['wall'] = time.time() - t0
+    return agg
+
+
+def check_globals(m):
+    g = m.globals.get('llvm.global_ctors')
+    if g is not None and g[1] is not None and g[1].kind == 'agg' and len(g[1].a):
+        raise Unsupported('module has dynamic initialisers (llvm.global_ctors); harness globals must be constant-initialised')
+
+
+def run_concrete(m, entry, args, choices, syms, budget=20_000_000, hooks=None, hook_opts=None):
+    """one fully concrete run (differential self-check / replay inside the interpreter)"""
+    it = Interp(m, concrete_syms=list(syms), budget=budget)
+    if hooks:
+        import importlib
+        importlib.import_module(hooks).install(it, hook_opts or {})
+    st, info = run_one(it, entry, args, list(choices))
+    return st, info, it
+
 
 if __name__ == '__main__':
-    m = parse_module(open(sys.argv[1]).read())
-    entry = sys.argv[2]
-    explore(m, entry, lambda it: [])
+    r = explore(sys.argv[1], sys.argv[2], [int(x) for x in sys.argv[3:]])
+    r['violations'] = r['violations'][:3]
+    print(json.dumps(r, indent=1, default=str))
